@@ -202,16 +202,7 @@ pub fn run_c05(tier: Tier) -> i32 {
     let l = super::large::LargeCoords { errors: false };
     run.replays("large-coordinates", &l);
     run.generated("large-coordinates", &l, tier.pick(300, 6_000));
-    let b = super::large::Beyond4G { errors: false, variants: if tier == Tier::Quick { &[0] } else { &[0, 0, 0, 1, 2] } };
-    run.replays("beyond-4-gib", &b);
-    // (each case reads 4..7 GB: minutes on a loaded machine; the per-case watchdog is widened for this sub-check)
-    let old_limit = std::env::var("VERIF_CASE_TIMEOUT").ok();
-    std::env::set_var("VERIF_CASE_TIMEOUT", "2400");
-    run.generated("beyond-4-gib", &b, tier.pick(2, 12));
-    match old_limit {
-        Some(v) => std::env::set_var("VERIF_CASE_TIMEOUT", v),
-        None => std::env::remove_var("VERIF_CASE_TIMEOUT"),
-    }
+    super::large::run_beyond(&mut run, false);
     run.finish(&format!("{} {}", RULE_C05, super::large::RULE_LARGE), &["reference model M_fa/M_fq gives the true coordinates", "seek targets are record starts (and the invalid FASTQ group) only"])
 }
 
